@@ -27,22 +27,16 @@ MLLS = [-2.0, -0.5, 0.0, 0.5, 1.0, 2.5, 3.0, 0.1, 1e-07, 12345.678]
 SYMS = ["=", "<", "<=", ">", ">="]
 CMP_COQ = {"=": "CEq", "<": "CLt", "<=": "CLe", ">": "CGt", ">=": "CGe"}
 
-# which variant of the model describes the code under test: "current" (the tree as it is: f11f464, 127fbf4 and
-# 60fb795 applied), "prequote" (60fb795 reverted), "legacy" (all three reverted) -- the latter two only for
-# regression experiments on scratch copies.
+# which variant of the model describes the code under test: "current" (the tree as it is: every repair applied).
+# The others describe the code with repairs reverted and exist only for regression experiments on scratch copies:
+# "pre4" (766ce6b, 21e37aa, 79488b4, 596613e reverted), "ortab"/"njunc"/"nnull"/"ninfo" (pre4 + one of them),
+# "prequote" (also 60fb795 reverted), "legacy" (everything reverted).
 DEFAULT_VARIANT = "current"
-LABEL_FN = {"current": "case_labels", "prequote": "case_labels_prequote", "legacy": "case_labels_legacy",
-            # proposed repairs applied on a scratch copy: all four / one at a time
-            "next": "case_labels_next", "ortab": "case_labels_ortab", "ninfo": "case_labels_ninfo",
-            "nnull": "case_labels_nnull", "njunc": "case_labels_njunc"}
+LABEL_FN = {"current": "case_labels", "pre4": "case_labels_pre4", "prequote": "case_labels_prequote", "legacy": "case_labels_legacy",
+            "ortab": "case_labels_ortab", "ninfo": "case_labels_ninfo", "nnull": "case_labels_nnull", "njunc": "case_labels_njunc"}
 
-KNOWN_CLASSES = {
-    2: "inverted-named-in-junction",
-    4: "or-merge-different-tables",
-    8: "not-of-junction",
-    16: "not-of-info",
+KNOWN_CLASSES = {     # label bits of Model.case_labels that may excuse a failure (only live findings)
     32: "three-tables",
-    256: "negated-attribute-null",
     512: "like-semantics",
     2048: "path-segment-shadows-query-attribute",
 }
@@ -1035,7 +1029,7 @@ def run(ctx):
                        "; ".join(bad_here) if bad_here else "pinned cases of the repaired finding pass")
     ctx.notes["cases_outside_every_known_class"] = n_guarded
     ctx.notes["model"] = ("qobj/compile/mk_junction/holds/run_ops in coq/C10/Model.v; variant `current` = the code as it is "
-                          "(f11f464, 127fbf4, 60fb795 applied), `prequote` / `legacy` = repairs reverted (history, regression experiments)")
+                          "(all seven repairs applied), `pre4` / `prequote` / `legacy` = repairs reverted (history, regression experiments)")
 
 
 MANIFEST = {
